@@ -456,6 +456,27 @@ func runC03(c *rt.Ctx) {
 	})
 	c.Require("single-byte-substitution", 100000)
 
+	{ // call histories: valid texts of equal length colliding under weak checksums, parsed back to back
+		var texts []string
+		for a := 0; a < 110; a++ {
+			for b := 0; b < 110; b++ {
+				for cc := 0; cc < 110; cc += 1 + (a+b)%3 {
+					t := fmt.Sprintf("%d.%d.%d", a, b, cc)
+					switch (a + 2*b + cc) % 5 {
+					case 1:
+						t += "-rc." + fmt.Sprint(cc%7)
+					case 2:
+						t = "v" + t
+					case 3:
+						t += "+b" + fmt.Sprint(a%10)
+					}
+					texts = append(texts, t)
+				}
+			}
+		}
+		collisionHistories(c, texts, 300, 200, func(w *rt.W, t string) { c03Case(w, t, true) })
+	}
+
 	nVer := c.Pick(1000000, 10000000)
 	c.Parallel("valid-roundtrip", 0, func(w *rt.W) {
 		field := func(build bool) string {
